@@ -495,7 +495,12 @@ func init() {
 				}
 				almost = append(append(almost, 7, 250), c.Bytes(250)...)
 				almost = append(almost, 0, 0, 0, 0, 0)
-				for _, w := range [][]byte{two, one, almost} {
+				ws := [][]byte{two, almost}
+				if tier == "thorough" {
+					// 15420 one-byte elements: the list-based model needs minutes for each of these cases
+					ws = append(ws, one)
+				}
+				for _, w := range ws {
 					emit(502, TBytes(w), TList{set(2, 3), TList{TI(3), TI(2)}, TList{TI(3), TI(1)}})
 					emit(502, TBytes(w), TList{set(1, 16), TList{TI(3), TI(1)}, set(1, 1), set(3, 2), TList{TI(3), TI(3)}})
 				}
